@@ -209,6 +209,11 @@ func visitInstr(fr *frame, instr ssa.Instruction) continuation {
 
 	case *ssa.UnOp:
 		ux := fr.get(instr.X)
+		if fr.i.x.fpCur != nil && instr.Op == token.MUL {
+			if la, ok := ux.(*value); ok {
+				fr.i.x.noteAccess(la, false)
+			}
+		}
 		if sx, ok := ux.(sym); ok {
 			fr.env[instr] = fr.i.x.symUnop(instr.Op, sx)
 		} else {
@@ -273,7 +278,11 @@ func visitInstr(fr *frame, instr ssa.Instruction) continuation {
 		fr.get(instr.Chan).(chan value) <- fr.get(instr.X)
 
 	case *ssa.Store:
-		store(mustDeref(instr.Addr.Type()), fr.get(instr.Addr).(*value), fr.get(instr.Val))
+		sa := fr.get(instr.Addr).(*value)
+		store(mustDeref(instr.Addr.Type()), sa, fr.get(instr.Val))
+		if fr.i.x.fpCur != nil {
+			fr.i.x.noteAccess(sa, true)
+		}
 
 	case *ssa.If:
 		succ := 1
@@ -409,6 +418,7 @@ func visitInstr(fr *frame, instr ssa.Instruction) continuation {
 		}
 		switch m := m.(type) {
 		case *omap:
+			fr.i.x.noteMap(m, 2)
 			m.set(key, v)
 		default:
 			panic(fmt.Sprintf("illegal map type: %T", m))
@@ -745,4 +755,3 @@ func doRecover(caller *frame) value {
 	}
 	return iface{}
 }
-
